@@ -27,6 +27,10 @@ type Region struct {
 	global  bool
 	ronly   bool // read-only ghost region (string literals etc.)
 	ghostBytes *SliceVal // parsed OID values remember their content octets
+	family     types.Type // slice of pointers: pointee type of the element family (elements are lazily symbolic objects)
+	aliasPtr   *PtrVal    // alias variant: element aliasIdx of the family is this object
+	aliasIdx   *Term
+	familyOf   *Region
 	lazy    bool // cells are created on demand as deterministic symbolic variables
 	created int  // state epoch of creation
 }
